@@ -1,6 +1,6 @@
 (* C11 — An unavailable pack is reported as missing, and everything else still reads. *)
 From Coq Require Import List NArith.
-From Jbk Require Import Base.Parser Format.Structs Container.Reader Container.Proofs.
+From Jbk Require Import Base.Parser Base.Prog Format.Structs Container.Reader Container.Proofs Container.ManifestFile.
 Import ListNotations.
 
 (* a pack that is neither inside the file at hand nor, by identity, inside the file at its recorded
@@ -34,7 +34,20 @@ Theorem C11_identity_is_the_uuid :
   forall uuid packs r, find_uuid uuid packs = Some r -> In (uuid, r) packs.
 Proof. exact find_uuid_sound. Qed.
 
+(* what "listed" means, through the file: for EVERY file holding a manifest whose blocks are placed where the format
+   says, the reader lists exactly the packs the writer recorded (the directory pack apart) — the list on which
+   missing / found is then decided *)
+Theorem C11_manifest_lists_exactly_the_written_packs :
+  forall f pos h mh infos d rest,
+    manifest_at f pos h mh infos ->
+    rev (filter (fun p => kind_eqb (pi_kind p) KDirectory) infos) = d :: rest ->
+    run f (manifest_open_p pos) =
+      Ok {| mf_pos := pos; mf_header := h; mf_mh := mh; mf_dir := d;
+            mf_packs := filter (fun p => negb (kind_eqb (pi_kind p) KDirectory)) infos |}.
+Proof. exact manifest_open_ok. Qed.
+
 Print Assumptions C11_absent_pack_is_missing.
 Print Assumptions C11_content_of_missing_pack.
 Print Assumptions C11_other_packs_do_not_matter.
 Print Assumptions C11_identity_is_the_uuid.
+Print Assumptions C11_manifest_lists_exactly_the_written_packs.
